@@ -34,8 +34,17 @@ def showEvent (e : Event) : String :=
   (match e.who with | .main => "M" | .ext i => "E" ++ toString i) ++
   (match e.kind with | .visit => "v" | .depart => "d") ++ toString e.node
 
+def showHandler : Handler → String
+  | .exact n => "exact:" ++ n
+  | .lower n => "lower:" ++ n
+  | .unknown => "unknown"
+
 def handle (args : List String) : String :=
   match args with
+  | ["dispatch", cls, defined] =>
+    -- `visitor dispatch <class name> <defined method names joined by ','>` ('-' = none)
+    let ds := if defined == "-" then [] else defined.splitOn ","
+    "ok " ++ showHandler (dispatch ds "visit_" cls) ++ " " ++ showHandler (dispatch ds "depart_" cls)
   | "stack" :: scopeTok :: skipTok :: toks =>
     match Proto.natList scopeTok, Proto.natList skipTok, parseTree (toks.length + 1) toks with
     | some sc, some sk, some (t, []) =>
